@@ -19,3 +19,6 @@ CHECKS['C03'] = (_SYMX + '; probability masses extracted from branch conditions,
 CHECKS['C11'] = (_SYMX + '; first-passage-percolation characterisation proved per path against a declarative reference',
                  'for every delay/duration table (symbolic, ties allowed) and every order in which the queue meets simultaneous events, infection times are shortest usable path lengths, recoveries follow durations, infectors lie on shortest paths, nothing at/after tmax; percolation builders and get_infected_nodes match their rule; myQueue order',
                  'floats as reals; graphs <= 3 (4) nodes; L1', 'DESIGN.md 6/C11')
+CHECKS['C09'] = (_SYMX + '; causal-validity assertions on transmissions vs node histories proved on every path',
+                 'on every path of every full-data simulator configuration in the bound the transmission list is ordered, along edges, from an infectious source to a just-susceptible target, in bijection with infections, sourceless only for initial nodes, and (SIR) a forest',
+                 'floats as reals; delays > 0 (a zero delay at tmin is unobservable in histories), ties otherwise allowed; graphs <= 3 (4) nodes; event bounds', 'DESIGN.md 6/C09')
